@@ -211,6 +211,16 @@ C04ok(E, tags, q) == HasTag(tags, "errpass") =>
   /\ (q.fin = "ok" \/ (q.fin = "stuck" /\ q.nblocked = q.nparked))     \* (an idle parked worker is C15's question)
   /\ LET d == DeliveredEvents(E, 1) IN Len(d) = Len(q.expect) /\ \A i \in 1..Len(d) : d[i][1] = q.expect[i][1] /\ d[i][2] = q.expect[i][2]
 
+\* ---------------------------------------------------------------- C06 across threads: the inputs of a failed attempt are released before the
+\* replacement is subscribed.  Tag "released-before-resume": the case's first input fails, on_error_resume_next subscribes a
+\* replacement whose subscribe() takes a long (virtual) time (its start is the `acsub` event), and meanwhile another thread
+\* emits into the sibling input (subject 2; `emitcall` carries the number of observers the subject holds at that moment):
+\* from the moment the replacement is being subscribed, the sibling must no longer hold the failed attempt's observer.
+C06conc(E, tags) == HasTag(tags, "released-before-resume") =>
+  LET acs == { p \in Pos(E) : E[p].ev = "acsub" } IN
+  /\ acs # {}
+  /\ \A p \in Pos(E) : (E[p].ev = "emitcall" /\ E[p].src = 2 /\ \E a \in acs : a < p) => E[p].cnt = 0
+
 \* ---------------------------------------------------------------- C15: worker threads exit when the subscription ends
 \* runtime events: spawn(v = new thread) / exit (with the virtual time clk of every event).  period = the case's timer period (ms).
 SubEnd(E, u) == LET ps == { p \in Pos(E) : (E[p].ev = "cbend" /\ E[p].u = u /\ E[p].k \in {"e", "c"}) \/ (E[p].ev = "unsubret" /\ E[p].u = u) }
@@ -279,7 +289,7 @@ C13ok(E, tags, q, period) ==
 
 Judge(E, tags, q) ==
   LET fin == q.fin IN
-  [C04 |-> IF C04ok(E, tags, q) THEN "ok" ELSE "bad", C14 |-> IF C14ok(E, tags, q, q.period) THEN "ok" ELSE "bad", C09 |-> IF C09ok(E, tags, q) THEN "ok" ELSE "bad", C15 |-> IF C15ok(E, tags, q, q.period) THEN "ok" ELSE "bad",
+  [C04 |-> IF C04ok(E, tags, q) THEN "ok" ELSE "bad", C06 |-> IF C06conc(E, tags) THEN "ok" ELSE "bad", C14 |-> IF C14ok(E, tags, q, q.period) THEN "ok" ELSE "bad", C09 |-> IF C09ok(E, tags, q) THEN "ok" ELSE "bad", C15 |-> IF C15ok(E, tags, q, q.period) THEN "ok" ELSE "bad",
    C16 |-> IF C16ok(E, tags, q, q.period) THEN "ok" ELSE "bad", C13 |-> IF C13ok(E, tags, q, q.period) THEN "ok" ELSE "bad", C18 |-> IF ~HasTag(tags, "tovec") \/ C18ok(E, q) THEN "ok" ELSE "bad",
    C08 |-> IF ~(HasTag(tags, "queue") \/ HasTag(tags, "default_queue")) \/ C08ok(E, tags, q) THEN "ok" ELSE "bad",
    C19 |-> IF C19ok(E) THEN "ok" ELSE "bad", C05 |-> IF C05ok(E) THEN "ok" ELSE "bad",
